@@ -62,7 +62,7 @@ pub static PROP: Prop = Prop {
     cases: |t| TRIPLES * t.pick(A_PER_TRIPLE_Q + B_PER_TRIPLE_Q, A_PER_TRIPLE_T + B_PER_TRIPLE_T),
     budget_s: |t| t.pick(60, 900),
     run,
-    min_nontrivial: 100,
+    min_nontrivial: 50,
     required_counters: &[
         "polls_judged",
         "timers_judged",
